@@ -542,6 +542,8 @@ impl SvgElement {
                 | "use"
                 // Following are non-standard.
                 | "reuse"
+                | "box"
+                | "point"
         )
     }
 
